@@ -4,84 +4,120 @@
 (*                                                                         *)
 (* One action per critical section of the implementation (driver process): *)
 (*                                                                         *)
-(*   Scenario.stepForward           BeginStep .. EndStep                   *)
-(*   ScenarioClock.ticToc           TicToc                                 *)
-(*   JobExecutor.join               CompleteXxx(j): the ONLY place a       *)
-(*                                  job result is merged; any pending job  *)
-(*                                  may complete next (= ray.wait order)   *)
+(*   Scenario.stepForward           BeginStep .. output                    *)
+(*   handleRelevantEvents /         Deliver(e): one handler call; the      *)
+(*     getRelevantEvents + handler  phase-closing actions (EndStepEvents,  *)
+(*                                  TicToc, EndBiasEvents, Decide) demand  *)
+(*                                  that exactly the relevant events of    *)
+(*                                  the phase were handled                 *)
+(*   ScenarioClock.ticToc +         TicToc (also prunes the agents'        *)
+(*     PropagateRegistration          event queues and enqueues the        *)
+(*     .generateSubmission            propagation batch)                   *)
+(*   JobExecutor.join               CompleteXxx(j): the ONLY place a job   *)
+(*                                  result is merged; any pending job may  *)
+(*                                  complete next (= ray.wait order)       *)
 (*   PropagateRegistration          CompletePropagate(a)                   *)
 (*   EstPredictRegistration         CompletePredict(t)                     *)
-(*   TaskingRewardRegistration      CompleteReward(e, t, row)              *)
-(*   CentralizedTaskingEngine       EngineReset(e), Decide(e),             *)
-(*     .assess / generateTasking    EnqueueExec(e)                         *)
-(*   TaskExecutionRegistration      CompleteExec(e, t, slew, hit, ser)     *)
-(*     saveObservations, saveMissedObservations,                           *)
-(*     updateFromAsyncTaskExecution                                        *)
-(*   Scenario: sensor.updateInfo    ApplyChanges(e)                        *)
+(*   TaskingRewardRegistration      CompleteReward(t, row)                 *)
+(*   CentralizedTaskingEngine       EngineReset(e), RewardJoined, Decide   *)
+(*   TaskExecutionRegistration      CompleteExec(t, slew, hit, ser)        *)
+(*   Scenario: sensor.updateInfo    ApplyChanges, NextEngine               *)
 (*   EstUpdateRegistration          CompleteUpdate(t)                      *)
-(*   Scenario.saveDatabaseOutput    SaveOutput / SkipOutput                *)
+(*   Scenario.saveDatabaseOutput    SaveOutput / SkipOutput / SaveFail     *)
 (*                                                                         *)
-(* Environment inputs (visibility, slew success, observation success,      *)
-(* serendipitous observations) are revealed by the job results, so a       *)
-(* recorded execution determines every nondeterministic choice.            *)
+(* Time is integer ticks (seconds); step j covers ((j-1)*Dt, j*Dt].        *)
+(* Environment inputs (visibility, slew / observation success,             *)
+(* serendipitous observations, a failing commit) are revealed by job       *)
+(* results, so a recorded execution determines every nondeterministic      *)
+(* choice.                                                                 *)
 (*                                                                         *)
 (* Deliberate deviations of the code from the design are NAMED constants   *)
-(* so that the model can be run "as designed" (what traces of the repaired *)
-(* implementation must satisfy) and "as coded" (to show TLC finds the      *)
-(* counterexample):  ResetChangesPerJob (D6), MissListSquared (D5),        *)
-(* KeepMissedAcrossSteps (D6b).                                            *)
+(* (as-coded behaviour before the repairs), used to show that TLC finds    *)
+(* the counterexample: ResetChangesPerJob (D6), MissListSquared (D5),      *)
+(* KeepMissedAcrossSteps (D6b), PriorityToAllEngines (D1),                 *)
+(* PruneKeepsEqual (D3).                                                   *)
 (*                                                                         *)
-(* Properties (C08):  OneRecordPerTasking, NoRecordWithoutTasking,         *)
-(* PointingReflectsTasking, LastStepMissesOnly, RowsExact,                 *)
-(* StepResultIsCanonical.  (C09/C10 clauses on the same state: TruthAtClock, *)
-(* EstimatesAtClock, DbComplete, DbNoDup, DbRefs.)                         *)
+(* Properties:                                                             *)
+(*  C01  ExactlyOnceInstant, DurationActiveExactly, OnlyAddressee, DvOnce  *)
+(*  C08  OneRecordPerTasking, NoRecordWithoutTasking,                      *)
+(*       PointingReflectsTasking, LastStepMissesOnly, StepResultIsCanonical *)
+(*  C09  DbComplete, DbNoDup, DbRefs, RowsExact, CommitAtomic              *)
+(*  C10  TruthAtClock, NonInterference (only truth actions change truth)   *)
 (***************************************************************************)
 EXTENDS Integers, Sequences, FiniteSets, FiniteSetsExt, TLC
 
 CONSTANTS
-  Targets,            \* target agent ids
-  Sensors,            \* sensor agent ids
+  Targets,            \* universe of target ids (including targets added by events)
+  Sensors,            \* universe of sensor ids
+  InitTargets,        \* targets present at the start
+  InitSensors,
   Engines,            \* tasking engine ids
-  EngTargets,         \* [Engines -> SUBSET Targets]
-  EngSensors,         \* [Engines -> SUBSET Sensors]
+  EngTargets,         \* [Engines -> SUBSET InitTargets]  initial membership
+  EngSensors,         \* [Engines -> SUBSET InitSensors]
   Policy,             \* [Engines -> {"munkres","greedy","random","allvisible"}]
-  NSteps,             \* number of physics steps explored
+  NSteps,             \* number of physics steps of the configured span
+  Dt,                 \* ticks (seconds) per physics step
   OutEvery,           \* an output row set is written every OutEvery-th step
+  Events,             \* set of event records [id, kind, t0, t1, who, eng, tgt, planned]
   WithEstimation,     \* FALSE = truth_simulation_only
   WithSerendipity,    \* background (serendipitous) observations modelled
-  ResetChangesPerJob, \* as coded (D6): sensor_changes = {} in every processResults
-  MissListSquared,    \* as coded (D5): n misses of a job are stored n*n times
-  KeepMissedAcrossSteps \* as coded (D6b): engine.missed_observations never reset
+  WithFaults,         \* a database commit may fail
+  ResetChangesPerJob, MissListSquared, KeepMissedAcrossSteps,   \* D6, D5, D6b as coded
+  PriorityToAllEngines,                                         \* D1 as coded
+  PruneKeepsEqual                                               \* D3 as coded
 
 None     == "none"
 NoChange == <<0, "none">>       \* sensor not mentioned in sensor_changes
 Keep     == <<0, "keep">>       \* mentioned, but slew failed: old boresight re-applied
-Agents   == Targets \cup Sensors
+Universe == Targets \cup Sensors
+EventIds == {e.id : e \in Events}
+Ev(id)   == CHOOSE e \in Events : e.id = id
+
+StepKinds == {"addTarget", "addSensor", "removeTarget", "removeSensor"}
+PropKinds == {"impulse", "burn", "maneuver"}
+ScopeOf(e) == IF e.kind \in StepKinds THEN "step"
+              ELSE IF e.kind \in PropKinds THEN "prop"
+              ELSE IF e.kind = "bias" THEN "obs" ELSE "reward"
+\* the documented delivery rule: start <= upper bound and end > lower bound of step j
+Relevant(e, j) == e.t0 <= j * Dt /\ e.t1 > (j - 1) * Dt
+\* instantaneous events carry t1 = t0; the query uses end > lb, i.e. t0 in ((j-1)Dt, jDt]
+Instant(e) == e.kind \in StepKinds \cup {"impulse"}
 
 VARIABLES
-  k,          \* step index = clock time / dt
+  k,          \* step index = clock time / Dt
   pc,         \* program point inside Scenario.stepForward
-  eng,        \* engine being assessed (element of Engines) or None
+  eng,        \* engine being assessed or None
   todo,       \* engines still to assess in this step
-  truthAt,    \* [Agents -> epoch index of the truth state held by the agent]
+  targets, sensors,   \* agents currently in the scenario
+  engT, engS,         \* [Engines -> current member sets]
+  truthAt,    \* [Universe -> epoch index of the truth state held by the agent]
   estAt,      \* [Targets -> <<epoch index, "pred" | "upd">>]
   estObs,     \* [Targets -> set of observations handed to the update of this step]
-  pend,       \* set of outstanding jobs of the current batch (job id = agent / target id)
+  pend,       \* outstanding jobs of the current batch (job id = agent / target id)
   visM,       \* [Targets -> set of sensors]: visibility rows merged so far (zero row until merged)
   decision,   \* set of <<t, s>> tasked by the current engine
   slewOK, hit,\* environment, revealed by exec results: sets of <<t, s>>
   obsStep,    \* engine._observations: set of <<tObserved, s, tPrimary>> (all engines, this step)
-  missStep,   \* misses recorded this step: bag <<t, s>> -> count
+  missStep,   \* misses recorded this step by the current engine: bag <<t, s>> -> count
   missHeld,   \* engine.missed_observations (public list): bag <<step, t, s>> -> count
   changes,    \* engine.sensor_changes: [Sensors -> NoChange | Keep | <<k, t>>]
   pointing,   \* [Sensors -> <<step last tasked, target pointed at>>]
   savedObs,   \* engine._saved_observations awaiting output: set of <<step, tObs, s, tPrim>>
   savedMiss,  \* engine._saved_missed_observations awaiting output: bag <<step, t, s>> -> count
-  tasked,     \* decision matrices of this step for the task rows: set of <<t, s>> (all engines)
-  db          \* output database: record of bags / sets (see DbInit)
+  db,         \* output database: record of bags / sets (see DbInit)
+  alive,      \* history: alive[j+1] = agents in the scenario when step j ended (j = 0..k)
+  delivered,  \* history: [EventIds -> sequence of <<step, handler>>] handler runs
+  handled,    \* event ids handled in the current phase of the current step
+  queue,      \* [Universe -> set of event ids] truth propagation event queues
+  estQueue,   \* [Targets -> set of event ids] estimate propagation event queues (planned events)
+  applied,    \* [EventIds -> number of times the impulse changed the truth velocity]
+  appliedEst, \* [EventIds -> number of times it changed the estimate]
+  biasQ       \* [Sensors -> set of event ids] time-bias queues
 
-vars == <<k, pc, eng, todo, truthAt, estAt, estObs, pend, visM, decision, slewOK, hit,
-          obsStep, missStep, missHeld, changes, pointing, savedObs, savedMiss, tasked, db>>
+truthVars == <<targets, sensors, truthAt, queue, applied>>
+vars == <<k, pc, eng, todo, targets, sensors, engT, engS, truthAt, estAt, estObs, pend, visM, decision, slewOK, hit,
+          obsStep, missStep, missHeld, changes, pointing, savedObs, savedMiss, db, alive,
+          delivered, handled, queue, estQueue, applied, appliedEst, biasQ>>
 
 -----------------------------------------------------------------------------
 (* bags as functions with finite domain *)
@@ -92,6 +128,8 @@ Cnt(b, x) == IF x \in DOMAIN b THEN b[x] ELSE 0
 BagUnion(b, c) == [x \in DOMAIN b \cup DOMAIN c |-> Cnt(b, x) + Cnt(c, x)]
 BagOfSet(S) == [x \in S |-> 1]
 
+Agents == targets \cup sensors
+AllPairs == UNION {engT[e] \X engS[e] : e \in Engines}
 TaskedOf(d, t)        == {s \in Sensors : <<t, s>> \in d}
 TargetsOfSensor(d, s) == {t \in Targets : <<t, s>> \in d}
 OnePerSensor(d) == \A s \in Sensors : Cardinality(TargetsOfSensor(d, s)) <= 1
@@ -102,22 +140,24 @@ Feasible(e, v) ==
   CASE Policy[e] = "munkres"    -> {d \in SUBSET v : OnePerSensor(d) /\ OnePerTarget(d)}
     [] Policy[e] = "greedy"     -> {d \in SUBSET v : OnePerSensor(d)}
     [] Policy[e] = "random"     -> {d \in SUBSET v : /\ OnePerSensor(d)
-                                      /\ \A s \in EngSensors[e] :
-                                           (\E t \in EngTargets[e] : <<t, s>> \in v) => TargetsOfSensor(d, s) # {}}
+                                      /\ \A s \in engS[e] :
+                                           (\E t \in engT[e] : <<t, s>> \in v) => TargetsOfSensor(d, s) # {}}
     [] Policy[e] = "allvisible" -> {v}
 
-AllPairs == UNION {EngTargets[e] \X EngSensors[e] : e \in Engines}
+InitPairs == UNION {EngTargets[e] \X EngSensors[e] : e \in Engines}
 \* the clock pre-populates the epoch table for the whole configured span (0..NSteps)
 DbInit == [epochs |-> 0..NSteps,
-           truth  |-> BagOfSet({<<0, a>> : a \in Agents}),
-           est    |-> IF WithEstimation THEN BagOfSet({<<0, t>> : t \in Targets}) ELSE EmptyBag,
+           truth  |-> BagOfSet({<<0, a>> : a \in InitTargets \cup InitSensors}),
+           est    |-> IF WithEstimation THEN BagOfSet({<<0, t>> : t \in InitTargets}) ELSE EmptyBag,
            obs    |-> EmptyBag,      \* <<step, tObs, s>> -> count
            miss   |-> EmptyBag,      \* <<step, t, s>> -> count
-           tasks  |-> IF WithEstimation THEN BagOfSet({<<0, p[1], p[2]>> : p \in AllPairs}) ELSE EmptyBag]
+           tasks  |-> IF WithEstimation THEN BagOfSet({<<0, p[1], p[2]>> : p \in InitPairs}) ELSE EmptyBag]
 
 Init ==
   /\ k = 0 /\ pc = "idle" /\ eng = None /\ todo = {}
-  /\ truthAt = [a \in Agents |-> 0]
+  /\ targets = InitTargets /\ sensors = InitSensors
+  /\ engT = EngTargets /\ engS = EngSensors
+  /\ truthAt = [a \in Universe |-> 0]
   /\ estAt = [t \in Targets |-> <<0, "upd">>]
   /\ estObs = [t \in Targets |-> {}]
   /\ pend = {}
@@ -126,49 +166,150 @@ Init ==
   /\ obsStep = {} /\ missStep = EmptyBag /\ missHeld = EmptyBag
   /\ changes = [s \in Sensors |-> NoChange]
   /\ pointing = [s \in Sensors |-> <<0, None>>]
-  /\ savedObs = {} /\ savedMiss = EmptyBag /\ tasked = {}
+  /\ savedObs = {} /\ savedMiss = EmptyBag
   /\ db = DbInit
+  /\ alive = <<InitTargets \cup InitSensors>>
+  /\ delivered = [e \in EventIds |-> <<>>]
+  /\ handled = {}
+  /\ queue = [a \in Universe |-> {}] /\ estQueue = [t \in Targets |-> {}]
+  /\ applied = [e \in EventIds |-> 0] /\ appliedEst = [e \in EventIds |-> 0]
+  /\ biasQ = [s \in Sensors |-> {}]
 
 -----------------------------------------------------------------------------
-(* Scenario.stepForward: events, ticToc, enqueue propagation jobs *)
+(* Scenario.stepForward, part 1: events of the step that is about to be taken (index k+1) *)
 BeginStep ==
   /\ pc = "idle" /\ k < NSteps
-  /\ k' = k + 1                                  \* clock.ticToc()
-  /\ pend' = Agents                              \* one PropagateRegistration per agent
-  /\ pc' = "propagate"
-  /\ obsStep' = {} /\ tasked' = {}
-  /\ UNCHANGED <<eng, todo, truthAt, estAt, estObs, visM, decision, slewOK, hit, missStep, missHeld,
-                 changes, pointing, savedObs, savedMiss, db>>
+  /\ pc' = "stepev" /\ handled' = {}
+  /\ obsStep' = {}
+  /\ UNCHANGED <<k, eng, todo, targets, sensors, engT, engS, truthAt, estAt, estObs, pend, visM, decision, slewOK, hit,
+                 missStep, missHeld, changes, pointing, savedObs, savedMiss, db, alive,
+                 delivered, queue, estQueue, applied, appliedEst, biasQ>>
+
+\* the step an event handled in the current phase belongs to
+PhaseStep == IF pc \in {"stepev", "propev"} THEN k + 1 ELSE k
+PhaseScope == CASE pc = "stepev" -> "step" [] pc = "propev" -> "prop" [] pc = "biasev" -> "obs"
+                [] pc = "prioev" -> "reward" [] OTHER -> "nophase"
+\* events the current phase must handle (as designed: priority events only by the engine they name)
+MustHandle ==
+  {e \in Events : /\ ScopeOf(e) = PhaseScope /\ Relevant(e, PhaseStep)
+                  /\ (PhaseScope = "reward" => (PriorityToAllEngines \/ e.who = eng))}
+AllHandled == MustHandle \subseteq {Ev(i) : i \in handled}
+
+\* one handler call (Event.handleEvent)
+Deliver(id) ==
+  LET e == Ev(id) IN
+  /\ e \in MustHandle /\ id \notin handled
+  /\ handled' = handled \cup {id}
+  /\ delivered' = [delivered EXCEPT ![id] = Append(@, <<PhaseStep, IF PhaseScope = "reward" THEN eng ELSE e.who>>)]
+  /\ CASE e.kind = "addTarget" ->
+            /\ e.who \notin targets
+            /\ targets' = targets \cup {e.who}
+            /\ engT' = [engT EXCEPT ![e.eng] = @ \cup {e.who}]
+            /\ truthAt' = [truthAt EXCEPT ![e.who] = k]
+            /\ estAt' = [estAt EXCEPT ![e.who] = <<k, "upd">>]
+            /\ UNCHANGED <<sensors, engS, queue, estQueue, biasQ, pointing>>
+       [] e.kind = "addSensor" ->
+            /\ e.who \notin sensors
+            /\ sensors' = sensors \cup {e.who}
+            /\ engS' = [engS EXCEPT ![e.eng] = @ \cup {e.who}]
+            /\ truthAt' = [truthAt EXCEPT ![e.who] = k]
+            /\ pointing' = [pointing EXCEPT ![e.who] = <<0, None>>]
+            /\ UNCHANGED <<targets, engT, estAt, queue, estQueue, biasQ>>
+       [] e.kind = "removeTarget" ->
+            /\ e.who \in targets
+            /\ targets' = targets \ {e.who}
+            /\ engT' = [engT EXCEPT ![e.eng] = @ \ {e.who}]
+            /\ UNCHANGED <<sensors, engS, truthAt, estAt, queue, estQueue, biasQ, pointing>>
+       [] e.kind = "removeSensor" ->
+            /\ e.who \in sensors
+            /\ sensors' = sensors \ {e.who}
+            /\ engS' = [engS EXCEPT ![e.eng] = @ \ {e.who}]
+            /\ UNCHANGED <<targets, engT, truthAt, estAt, queue, estQueue, biasQ, pointing>>
+       [] e.kind \in PropKinds ->
+            /\ e.who \in targets
+            /\ queue' = [queue EXCEPT ![e.who] = @ \cup {id}]
+            /\ estQueue' = IF e.planned THEN [estQueue EXCEPT ![e.who] = @ \cup {id}] ELSE estQueue
+            /\ UNCHANGED <<targets, sensors, engT, engS, truthAt, estAt, biasQ, pointing>>
+       [] e.kind = "bias" ->
+            /\ e.who \in sensors
+            /\ biasQ' = [biasQ EXCEPT ![e.who] = @ \cup {id}]
+            /\ UNCHANGED <<targets, sensors, engT, engS, truthAt, estAt, queue, estQueue, pointing>>
+       [] e.kind = "priority" ->
+            /\ e.tgt \in engT[eng]          \* the handler indexes the engine's target list
+            /\ UNCHANGED <<targets, sensors, engT, engS, truthAt, estAt, queue, estQueue, biasQ, pointing>>
+  /\ UNCHANGED <<k, pc, eng, todo, estObs, pend, visM, decision, slewOK, hit, obsStep, missStep, missHeld, changes,
+                 savedObs, savedMiss, db, alive, applied, appliedEst>>
+
+EndStepEvents ==
+  /\ pc = "stepev" /\ AllHandled
+  /\ pc' = "propev" /\ handled' = {}
+  /\ UNCHANGED <<k, eng, todo, targets, sensors, engT, engS, truthAt, estAt, estObs, pend, visM, decision, slewOK, hit,
+                 obsStep, missStep, missHeld, changes, pointing, savedObs, savedMiss, db, alive,
+                 delivered, queue, estQueue, applied, appliedEst, biasQ>>
+
+\* an event stays queued while its (end) time is still ahead of the agent's time
+StillAhead(id, now) == LET e == Ev(id) IN
+                          IF PruneKeepsEqual /\ Instant(e) THEN e.t1 >= now ELSE e.t1 > now
+
+\* clock.ticToc(); every PropagateRegistration.generateSubmission prunes the agent's queue
+TicToc ==
+  /\ pc = "propev" /\ AllHandled
+  /\ k' = k + 1
+  /\ queue' = [a \in Universe |-> {id \in queue[a] : StillAhead(id, k * Dt)}]
+  /\ pend' = Agents
+  /\ pc' = "propagate" /\ handled' = {}
+  /\ UNCHANGED <<eng, todo, targets, sensors, engT, engS, truthAt, estAt, estObs, visM, decision, slewOK, hit,
+                 obsStep, missStep, missHeld, changes, pointing, savedObs, savedMiss, db, alive,
+                 delivered, estQueue, applied, appliedEst, biasQ>>
+
+\* impulses of a queue that fall inside step j: solve_ivp's rule (g <= 0 at start, g >= 0 at end)
+FiresIn(q, j) == {id \in q : Ev(id).kind = "impulse" /\ (j - 1) * Dt <= Ev(id).t0 /\ Ev(id).t0 <= j * Dt}
 
 CompletePropagate(a) ==
   /\ pc = "propagate" /\ a \in pend
   /\ truthAt' = [truthAt EXCEPT ![a] = @ + 1]    \* time := final_time, eci := final_eci
+  /\ applied' = [id \in EventIds |-> IF id \in FiresIn(queue[a], k) THEN applied[id] + 1 ELSE applied[id]]
   /\ pend' = pend \ {a}
-  /\ UNCHANGED <<k, pc, eng, todo, estAt, estObs, visM, decision, slewOK, hit, obsStep, missStep, missHeld,
-                 changes, pointing, savedObs, savedMiss, tasked, db>>
+  /\ UNCHANGED <<k, pc, eng, todo, targets, sensors, engT, engS, estAt, estObs, visM, decision, slewOK, hit, obsStep,
+                 missStep, missHeld, changes, pointing, savedObs, savedMiss, db, alive,
+                 delivered, handled, queue, estQueue, appliedEst, biasQ>>
 
 JoinPropagate ==
   /\ pc = "propagate" /\ pend = {}
   /\ IF WithEstimation
-       THEN pend' = Targets /\ pc' = "predict"
-       ELSE pend' = {} /\ pc' = "output"
-  /\ UNCHANGED <<k, eng, todo, truthAt, estAt, estObs, visM, decision, slewOK, hit, obsStep, missStep, missHeld,
-                 changes, pointing, savedObs, savedMiss, tasked, db>>
+       THEN /\ pend' = targets /\ pc' = "predict"
+            /\ estQueue' = [t \in Targets |-> {id \in estQueue[t] : StillAhead(id, (k - 1) * Dt)}]
+       ELSE pend' = {} /\ pc' = "output" /\ UNCHANGED estQueue
+  /\ UNCHANGED <<k, eng, todo, targets, sensors, engT, engS, truthAt, estAt, estObs, visM, decision, slewOK, hit, obsStep,
+                 missStep, missHeld, changes, pointing, savedObs, savedMiss, db, alive,
+                 delivered, handled, queue, applied, appliedEst, biasQ>>
 
 CompletePredict(t) ==
   /\ pc = "predict" /\ t \in pend
   /\ estAt' = [estAt EXCEPT ![t] = <<@[1] + 1, "pred">>]
+  /\ appliedEst' = [id \in EventIds |-> IF id \in FiresIn(estQueue[t], k) THEN appliedEst[id] + 1 ELSE appliedEst[id]]
   /\ pend' = pend \ {t}
-  /\ UNCHANGED <<k, pc, eng, todo, truthAt, estObs, visM, decision, slewOK, hit, obsStep, missStep, missHeld,
-                 changes, pointing, savedObs, savedMiss, tasked, db>>
+  /\ UNCHANGED <<k, pc, eng, todo, targets, sensors, engT, engS, truthAt, estObs, visM, decision, slewOK, hit, obsStep,
+                 missStep, missHeld, changes, pointing, savedObs, savedMiss, db, alive,
+                 delivered, handled, queue, estQueue, applied, biasQ>>
 
-\* predictor.join(); time-bias events; ray.put of every agent; start of the engine loop
+\* predictor.join(); then the sensor time-bias events of this step are handled
 JoinPredict ==
   /\ pc = "predict" /\ pend = {}
+  /\ pc' = "biasev" /\ handled' = {}
+  /\ UNCHANGED <<k, eng, todo, targets, sensors, engT, engS, truthAt, estAt, estObs, pend, visM, decision, slewOK, hit,
+                 obsStep, missStep, missHeld, changes, pointing, savedObs, savedMiss, db, alive,
+                 delivered, queue, estQueue, applied, appliedEst, biasQ>>
+
+\* sensor.pruneTimeBiasEvents() (closed interval at the observation instant); ray.put; engine loop
+EndBiasEvents ==
+  /\ pc = "biasev" /\ AllHandled
+  /\ biasQ' = [s \in Sensors |-> {id \in biasQ[s] : Ev(id).t0 <= k * Dt /\ k * Dt <= Ev(id).t1}]
   /\ todo' = Engines /\ eng' = None
-  /\ pc' = "engines"
-  /\ UNCHANGED <<k, truthAt, estAt, estObs, pend, visM, decision, slewOK, hit, obsStep, missStep, missHeld,
-                 changes, pointing, savedObs, savedMiss, tasked, db>>
+  /\ pc' = "engines" /\ handled' = {}
+  /\ UNCHANGED <<k, targets, sensors, engT, engS, truthAt, estAt, estObs, pend, visM, decision, slewOK, hit,
+                 obsStep, missStep, missHeld, changes, pointing, savedObs, savedMiss, db, alive,
+                 delivered, queue, estQueue, applied, appliedEst>>
 
 -----------------------------------------------------------------------------
 (* CentralizedTaskingEngine.assess *)
@@ -180,29 +321,39 @@ EngineReset(e) ==
   /\ missStep' = EmptyBag
   /\ missHeld' = IF KeepMissedAcrossSteps THEN missHeld ELSE EmptyBag
   /\ changes' = [s \in Sensors |-> NoChange]
-  /\ pend' = EngTargets[e]                        \* one TaskingRewardRegistration per target
+  /\ pend' = engT[e]                              \* one TaskingRewardRegistration per target
   /\ pc' = "reward"
-  /\ UNCHANGED <<k, truthAt, estAt, estObs, obsStep, pointing, savedObs, savedMiss, tasked, db>>
+  /\ UNCHANGED <<k, targets, sensors, engT, engS, truthAt, estAt, estObs, obsStep, pointing, savedObs, savedMiss, db, alive,
+                 delivered, handled, queue, estQueue, applied, appliedEst, biasQ>>
 
 CompleteReward(t, row) ==
   /\ pc = "reward" /\ t \in pend
-  /\ row \subseteq EngSensors[eng]
+  /\ row \subseteq engS[eng]
   /\ visM' = [visM EXCEPT ![t] = row]
   /\ pend' = pend \ {t}
-  /\ UNCHANGED <<k, pc, eng, todo, truthAt, estAt, estObs, decision, slewOK, hit, obsStep, missStep, missHeld,
-                 changes, pointing, savedObs, savedMiss, tasked, db>>
+  /\ UNCHANGED <<k, pc, eng, todo, targets, sensors, engT, engS, truthAt, estAt, estObs, decision, slewOK, hit, obsStep,
+                 missStep, missHeld, changes, pointing, savedObs, savedMiss, db, alive,
+                 delivered, handled, queue, estQueue, applied, appliedEst, biasQ>>
 
-Vis == {<<t, s>> \in EngTargets[eng] \X EngSensors[eng] : s \in visM[t]}
-
-\* reward join, priority events, calculateRewards, generateTasking, enqueue exec jobs
-Decide ==
+\* reward_executor.join(); the engine's task-priority events are handled next
+RewardJoined ==
   /\ pc = "reward" /\ pend = {}
+  /\ pc' = "prioev" /\ handled' = {}
+  /\ UNCHANGED <<k, eng, todo, targets, sensors, engT, engS, truthAt, estAt, estObs, pend, visM, decision, slewOK, hit,
+                 obsStep, missStep, missHeld, changes, pointing, savedObs, savedMiss, db, alive,
+                 delivered, queue, estQueue, applied, appliedEst, biasQ>>
+
+Vis == {<<t, s>> \in engT[eng] \X engS[eng] : s \in visM[t]}
+
+\* calculateRewards, generateTasking, enqueue the task-execution jobs
+Decide ==
+  /\ pc = "prioev" /\ AllHandled
   /\ decision' \in Feasible(eng, Vis)
-  /\ tasked' = tasked \cup decision'
-  /\ pend' = {t \in EngTargets[eng] : TaskedOf(decision', t) # {}}
-  /\ pc' = "exec"
-  /\ UNCHANGED <<k, eng, todo, truthAt, estAt, estObs, visM, slewOK, hit, obsStep, missStep, missHeld,
-                 changes, pointing, savedObs, savedMiss, db>>
+  /\ pend' = {t \in engT[eng] : TaskedOf(decision', t) # {}}
+  /\ pc' = "exec" /\ handled' = {}
+  /\ UNCHANGED <<k, eng, todo, targets, sensors, engT, engS, truthAt, estAt, estObs, visM, slewOK, hit, obsStep, missStep,
+                 missHeld, changes, pointing, savedObs, savedMiss, db, alive,
+                 delivered, queue, estQueue, applied, appliedEst, biasQ>>
 
 \* TaskExecutionRegistration.processResults for the job of target t:
 \*   slewT: tasked sensors that could slew; hitT: those that observed the primary;
@@ -210,7 +361,7 @@ Decide ==
 CompleteExec(t, slewT, hitT, ser) ==
   /\ pc = "exec" /\ t \in pend
   /\ slewT \subseteq TaskedOf(decision, t) /\ hitT \subseteq slewT
-  /\ ser \subseteq (Targets \ {t}) \X TaskedOf(decision, t)
+  /\ ser \subseteq (targets \ {t}) \X TaskedOf(decision, t)
   /\ (~WithSerendipity => ser = {})
   /\ slewOK' = slewOK \cup {<<t, s>> : s \in slewT}
   /\ hit' = hit \cup {<<t, s>> : s \in hitT}
@@ -229,15 +380,17 @@ CompleteExec(t, slewT, hitT, ser) ==
                                            THEN (IF s \in slewT THEN <<k, t>> ELSE Keep)
                                            ELSE base[s]]
   /\ pend' = pend \ {t}
-  /\ UNCHANGED <<k, pc, eng, todo, truthAt, estAt, estObs, visM, decision, pointing, tasked, db>>
+  /\ UNCHANGED <<k, pc, eng, todo, targets, sensors, engT, engS, truthAt, estAt, estObs, visM, decision, pointing, db, alive,
+                 delivered, handled, queue, estQueue, applied, appliedEst, biasQ>>
 
 \* Scenario: for sensor_change in engine.sensor_changes: sensor.updateInfo(...); resetHandles
 ApplyChanges ==
   /\ pc = "exec" /\ pend = {}
   /\ pointing' = [s \in Sensors |-> IF changes[s] \notin {NoChange, Keep} THEN changes[s] ELSE pointing[s]]
   /\ pc' = "applied"
-  /\ UNCHANGED <<k, eng, todo, truthAt, estAt, estObs, pend, visM, decision, slewOK, hit, obsStep, missStep,
-                 missHeld, changes, savedObs, savedMiss, tasked, db>>
+  /\ UNCHANGED <<k, eng, todo, targets, sensors, engT, engS, truthAt, estAt, estObs, pend, visM, decision, slewOK, hit,
+                 obsStep, missStep, missHeld, changes, savedObs, savedMiss, db, alive,
+                 delivered, handled, queue, estQueue, applied, appliedEst, biasQ>>
 
 \* next engine, or leave the engine loop and enqueue the estimate updates
 NextEngine ==
@@ -245,53 +398,83 @@ NextEngine ==
   /\ IF todo # {}
        THEN pc' = "engines" /\ UNCHANGED <<pend, estObs>>
        ELSE /\ pc' = "update"
-            /\ pend' = Targets
+            /\ pend' = targets
             /\ estObs' = [t \in Targets |-> {o \in obsStep : o[1] = t}]
-  /\ UNCHANGED <<k, eng, todo, truthAt, estAt, visM, decision, slewOK, hit, obsStep, missStep, missHeld,
-                 changes, pointing, savedObs, savedMiss, tasked, db>>
+  /\ UNCHANGED <<k, eng, todo, targets, sensors, engT, engS, truthAt, estAt, visM, decision, slewOK, hit, obsStep,
+                 missStep, missHeld, changes, pointing, savedObs, savedMiss, db, alive,
+                 delivered, handled, queue, estQueue, applied, appliedEst, biasQ>>
+
+\* a scenario without engines goes straight from the bias events to the updates
+NoEngines ==
+  /\ pc = "engines" /\ todo = {} /\ eng = None
+  /\ pc' = "update" /\ pend' = targets
+  /\ estObs' = [t \in Targets |-> {}]
+  /\ UNCHANGED <<k, eng, todo, targets, sensors, engT, engS, truthAt, estAt, visM, decision, slewOK, hit, obsStep,
+                 missStep, missHeld, changes, pointing, savedObs, savedMiss, db, alive,
+                 delivered, handled, queue, estQueue, applied, appliedEst, biasQ>>
 
 CompleteUpdate(t) ==
   /\ pc = "update" /\ t \in pend
   /\ estAt' = [estAt EXCEPT ![t] = <<@[1], "upd">>]
   /\ pend' = pend \ {t}
-  /\ UNCHANGED <<k, pc, eng, todo, truthAt, estObs, visM, decision, slewOK, hit, obsStep, missStep, missHeld,
-                 changes, pointing, savedObs, savedMiss, tasked, db>>
+  /\ UNCHANGED <<k, pc, eng, todo, targets, sensors, engT, engS, truthAt, estObs, visM, decision, slewOK, hit, obsStep,
+                 missStep, missHeld, changes, pointing, savedObs, savedMiss, db, alive,
+                 delivered, handled, queue, estQueue, applied, appliedEst, biasQ>>
 
 JoinUpdate ==
   /\ pc = "update" /\ pend = {}
   /\ pc' = "output"
-  /\ UNCHANGED <<k, eng, todo, truthAt, estAt, estObs, pend, visM, decision, slewOK, hit, obsStep, missStep,
-                 missHeld, changes, pointing, savedObs, savedMiss, tasked, db>>
+  /\ UNCHANGED <<k, eng, todo, targets, sensors, engT, engS, truthAt, estAt, estObs, pend, visM, decision, slewOK, hit,
+                 obsStep, missStep, missHeld, changes, pointing, savedObs, savedMiss, db, alive,
+                 delivered, handled, queue, estQueue, applied, appliedEst, biasQ>>
 
 -----------------------------------------------------------------------------
 (* Scenario.propagateTo: saveDatabaseOutput on the output interval *)
 IsOutputStep == k % OutEvery = 0
 
+Written ==
+  [epochs |-> db.epochs \cup {k},
+   truth  |-> BagUnion(db.truth, BagOfSet({<<k, a>> : a \in Agents})),
+   est    |-> IF WithEstimation THEN BagUnion(db.est, BagOfSet({<<k, t>> : t \in targets})) ELSE db.est,
+   obs    |-> FoldSet(LAMBDA o, b : BagAdd(b, <<o[1], o[2], o[3]>>, 1), db.obs, savedObs),
+   miss   |-> BagUnion(db.miss, savedMiss),
+   tasks  |-> IF WithEstimation
+                THEN BagUnion(db.tasks, BagOfSet({<<k, p[1], p[2]>> : p \in AllPairs}))
+                ELSE db.tasks]
+
 SaveOutput ==
   /\ pc = "output" /\ IsOutputStep
-  /\ db' = [epochs |-> db.epochs \cup {k},
-            truth  |-> BagUnion(db.truth, BagOfSet({<<k, a>> : a \in Agents})),
-            est    |-> IF WithEstimation THEN BagUnion(db.est, BagOfSet({<<k, t>> : t \in Targets})) ELSE db.est,
-            obs    |-> FoldSet(LAMBDA o, b : BagAdd(b, <<o[1], o[2], o[3]>>, 1), db.obs, savedObs),
-            miss   |-> BagUnion(db.miss, savedMiss),
-            tasks  |-> IF WithEstimation
-                         THEN BagUnion(db.tasks, BagOfSet({<<k, p[1], p[2]>> : p \in AllPairs}))
-                         ELSE db.tasks]
+  /\ db' = Written
   /\ savedObs' = {} /\ savedMiss' = EmptyBag
+  /\ alive' = Append(alive, Agents)
   /\ pc' = "idle"
-  /\ UNCHANGED <<k, eng, todo, truthAt, estAt, estObs, pend, visM, decision, slewOK, hit, obsStep, missStep,
-                 missHeld, changes, pointing, tasked>>
+  /\ UNCHANGED <<k, eng, todo, targets, sensors, engT, engS, truthAt, estAt, estObs, pend, visM, decision, slewOK, hit,
+                 obsStep, missStep, missHeld, changes, pointing,
+                 delivered, handled, queue, estQueue, applied, appliedEst, biasQ>>
+
+\* the commit raises: nothing of the step's rows may be visible afterwards; the run stops
+SaveFail ==
+  /\ WithFaults /\ pc = "output" /\ IsOutputStep
+  /\ pc' = "failed"
+  /\ savedObs' = {} /\ savedMiss' = EmptyBag      \* the transient lists were already handed over
+  /\ UNCHANGED <<k, eng, todo, targets, sensors, engT, engS, truthAt, estAt, estObs, pend, visM, decision, slewOK, hit,
+                 obsStep, missStep, missHeld, changes, pointing, db, alive,
+                 delivered, handled, queue, estQueue, applied, appliedEst, biasQ>>
 
 SkipOutput ==
   /\ pc = "output" /\ ~IsOutputStep
+  /\ alive' = Append(alive, Agents)
   /\ pc' = "idle"
-  /\ UNCHANGED <<k, eng, todo, truthAt, estAt, estObs, pend, visM, decision, slewOK, hit, obsStep, missStep,
-                 missHeld, changes, pointing, savedObs, savedMiss, tasked, db>>
+  /\ UNCHANGED <<k, eng, todo, targets, sensors, engT, engS, truthAt, estAt, estObs, pend, visM, decision, slewOK, hit,
+                 obsStep, missStep, missHeld, changes, pointing, savedObs, savedMiss, db,
+                 delivered, handled, queue, estQueue, applied, appliedEst, biasQ>>
 
 Next ==
-  \/ BeginStep \/ JoinPropagate \/ JoinPredict \/ Decide \/ ApplyChanges \/ NextEngine \/ JoinUpdate
-  \/ SaveOutput \/ SkipOutput
-  \/ \E a \in Agents : CompletePropagate(a)
+  \/ BeginStep \/ EndStepEvents \/ TicToc \/ JoinPropagate \/ JoinPredict \/ EndBiasEvents
+  \/ RewardJoined \/ Decide \/ ApplyChanges \/ NextEngine \/ NoEngines \/ JoinUpdate
+  \/ SaveOutput \/ SkipOutput \/ SaveFail
+  \/ \E id \in EventIds : Deliver(id)
+  \/ \E a \in Universe : CompletePropagate(a)
   \/ \E t \in Targets : \/ CompletePredict(t) \/ CompleteUpdate(t)
                         \/ \E row \in SUBSET Sensors : CompleteReward(t, row)
                         \/ \E sl \in SUBSET Sensors : \E h \in SUBSET sl :
@@ -302,28 +485,54 @@ Next ==
 Spec == Init /\ [][Next]_vars
 
 -----------------------------------------------------------------------------
+(* C01 - events *)
+StepOf(t) == (t + Dt - 1) \div Dt            \* the step whose interval (prev, new] contains t
+HandledSteps(id) == {delivered[id][i][1] : i \in DOMAIN delivered[id]}
+\* every instantaneous event inside the span is handled in exactly one step, the right one
+ExactlyOnceInstant ==
+  pc = "idle" =>
+    \A e \in Events : (Instant(e) /\ e.t0 >= 1 /\ StepOf(e.t0) <= k) =>
+        /\ Len(delivered[e.id]) = 1
+        /\ delivered[e.id][1][1] = StepOf(e.t0)
+\* events with a duration are handled in exactly the steps their interval overlaps
+\* (priority events: once per step by their own engine)
+DurationActiveExactly ==
+  pc = "idle" =>
+    \A e \in Events : ~Instant(e) =>
+        /\ HandledSteps(e.id) = {j \in 1..k : Relevant(e, j)}
+        /\ (~PriorityToAllEngines => Len(delivered[e.id]) = Cardinality(HandledSteps(e.id)))
+\* only the engine / agent an event names ever handles it
+OnlyAddressee ==
+  \A e \in Events : \A i \in DOMAIN delivered[e.id] : delivered[e.id][i][2] = e.who
+\* an impulse changes the truth velocity (and the estimate's, when planned) exactly once
+DvOnce ==
+  pc = "idle" =>
+    \A e \in Events : (e.kind = "impulse" /\ e.t0 >= 1 /\ StepOf(e.t0) <= k) =>
+        /\ applied[e.id] = 1
+        /\ (WithEstimation => appliedEst[e.id] = IF e.planned THEN 1 ELSE 0)
+NeverTwice == \A id \in EventIds : applied[id] <= 1 /\ appliedEst[id] <= 1
+\* a time bias is active at an observation instant iff that instant lies in its closed interval
+BiasActiveExactly ==
+  pc \in {"engines", "reward", "prioev", "exec", "applied"} =>
+    \A s \in sensors : biasQ[s] = {e.id : e \in {x \in Events : x.kind = "bias" /\ x.who = s
+                                                   /\ x.t0 <= k * Dt /\ k * Dt <= x.t1}}
+
 (* C08 - bookkeeping *)
 AfterExec == pc = "applied"
-
 PrimaryObsCount(p) == Cardinality({o \in obsStep : o[1] = p[1] /\ o[2] = p[2] /\ o[3] = p[1]})
-\* each tasked pair: exactly one record for its primary target
 OneRecordPerTasking ==
   AfterExec => \A p \in decision : PrimaryObsCount(p) + Cnt(missStep, p) = 1
 NoRecordWithoutTasking ==
-  AfterExec => /\ \A o \in obsStep : o[3] \in EngTargets[eng] => <<o[3], o[2]>> \in decision
+  AfterExec => /\ \A o \in obsStep : o[3] \in engT[eng] => <<o[3], o[2]>> \in decision
                /\ DOMAIN missStep \subseteq decision
-\* every tasked sensor's pointing and last-tasked time reflect that tasking
 PointingReflectsTasking ==
-  AfterExec => \A s \in EngSensors[eng] :
+  AfterExec => \A s \in engS[eng] :
       LET ts == {t \in TargetsOfSensor(decision, s) : <<t, s>> \in slewOK}
       IN IF ts # {} THEN pointing[s] \in {<<k, t>> : t \in ts}
          ELSE pointing[s][1] < k
-\* the public per-step miss list holds this step's misses only, once each
 LastStepMissesOnly ==
   AfterExec => \A key \in DOMAIN missHeld : key[1] = k /\ missHeld[key] = 1
-\* stored miss rows: one per missed tasking
 RowsExact == \A key \in DOMAIN db.miss : db.miss[key] = 1
-
 \* Order independence as an invariant: after all jobs of an engine are merged the state is
 \* the schedule-free function of the environment inputs (decision, slewOK, hit, obsStep).
 CanonMiss == BagOfSet(decision \ {<<o[1], o[2]>> : o \in {x \in obsStep : x[1] = x[3]}})
@@ -333,30 +542,36 @@ CanonPointing(s) ==
 StepResultIsCanonical ==
   AfterExec =>
      /\ missStep = CanonMiss
-     /\ \A s \in EngSensors[eng] :
+     /\ \A s \in engS[eng] :
           Cardinality({t \in TargetsOfSensor(decision, s) : <<t, s>> \in slewOK}) = 1
              => pointing[s] = CanonPointing(s)
-
 OnlyVisibleTasked == pc \in {"exec", "applied"} => decision \subseteq Vis
 
-(* C10/C09 clauses visible on this state *)
+(* C10 / C09 clauses *)
 TruthAtClock     == pc \in {"idle", "output"} => \A a \in Agents : truthAt[a] = k
-EstimatesAtClock == (WithEstimation /\ pc \in {"idle", "output"}) => \A t \in Targets : estAt[t] = <<k, "upd">>
+EstimatesAtClock == (WithEstimation /\ pc \in {"idle", "output"}) => \A t \in targets : estAt[t] = <<k, "upd">>
+\* only the truth sub-system (scenario-step events, propagation-event queueing, ticToc,
+\* propagation merges) may change a truth variable: non-interference of estimation / tasking /
+\* output with the truth trajectories
+NonInterference ==
+  [][truthVars' # truthVars => pc \in {"stepev", "propev", "propagate"}]_vars
 OutputSteps == {j \in 0..k : j % OutEvery = 0}
+AliveAt(j) == alive[j + 1]
 DbComplete ==
   pc = "idle" =>
      /\ OutputSteps \subseteq db.epochs
-     /\ DOMAIN db.truth = OutputSteps \X Agents
-     /\ (WithEstimation => DOMAIN db.est = OutputSteps \X Targets)
+     /\ DOMAIN db.truth = UNION {{<<j, a>> : a \in AliveAt(j)} : j \in OutputSteps}
+     /\ (WithEstimation =>
+           DOMAIN db.est = UNION {{<<j, t>> : t \in AliveAt(j) \cap Targets} : j \in OutputSteps})
 DbNoDup ==
   /\ \A x \in DOMAIN db.truth : db.truth[x] = 1
   /\ \A x \in DOMAIN db.est : db.est[x] = 1
   /\ \A x \in DOMAIN db.miss : db.miss[x] = 1
   /\ \A x \in DOMAIN db.tasks : db.tasks[x] = 1
 DbRefs ==
-  /\ \A x \in DOMAIN db.truth \cup DOMAIN db.est : x[1] \in db.epochs
-  /\ \A x \in DOMAIN db.obs \cup DOMAIN db.miss : x[2] \in Targets /\ x[3] \in Sensors
+  /\ \A x \in DOMAIN db.truth \cup DOMAIN db.est : x[1] \in db.epochs /\ x[2] \in Universe
+  /\ \A x \in DOMAIN db.obs \cup DOMAIN db.miss : x[1] \in db.epochs /\ x[2] \in Targets /\ x[3] \in Sensors
   /\ \A x \in DOMAIN db.tasks : x[1] \in db.epochs
-\* observations/misses are only stored for epochs that exist when OutEvery = 1
-ObsRowsHaveEpoch == OutEvery = 1 => \A x \in DOMAIN db.obs \cup DOMAIN db.miss : x[1] \in db.epochs
+\* a failing commit leaves the database exactly as it was
+CommitAtomic == [][pc' = "failed" => db' = db]_vars
 =============================================================================
